@@ -137,3 +137,211 @@ func (c *Ctx) CriticalSection(fn *ssa.Function, mtxRe, desc string, body SinkSel
 	}
 	c.OK("L3", key, instrPos(locks[0]), len(bodies)+1, fmt.Sprintf("%d protected instruction(s) under one acquisition", len(bodies)))
 }
+
+// GuardedBy (rule L2): the listed fields of a struct are accessed only with the struct's mutex held. A function that
+// touches a guarded field (or calls one that needs the mutex) without taking the mutex first "needs" it from its
+// callers; a function that needs it and is an entry point (exported method, goroutine body, no callers in the module)
+// violates the rule. rwFields are guarded for reads and writes, wFields for writes only.
+func (c *Ctx) GuardedBy(pkg, typ, mtxField string, rwFields, wFields []string, exceptions map[string]string) {
+	nt, st := c.P.NamedStruct(pkg, typ)
+	if nt == nil {
+		c.Unres("L2", pkg+"."+typ, "type not found")
+		return
+	}
+	idx := map[int]string{}
+	wOnly := map[int]bool{}
+	for i := 0; i < st.NumFields(); i++ {
+		for _, f := range rwFields {
+			if st.Field(i).Name() == f {
+				idx[i] = f
+			}
+		}
+		for _, f := range wFields {
+			if st.Field(i).Name() == f {
+				idx[i] = f
+				wOnly[i] = true
+			}
+		}
+	}
+	tname := pkg + "." + typ
+	isAccess := func(in ssa.Instruction) (string, bool) {
+		fa, ok := in.(*ssa.FieldAddr)
+		if !ok || namedOf(fa.X.Type()) != tname {
+			return "", false
+		}
+		f, ok := idx[fa.Field]
+		if !ok {
+			return "", false
+		}
+		if wOnly[fa.Field] {
+			for _, r := range *fa.Referrers() {
+				if s, ok := r.(*ssa.Store); ok && s.Addr == fa {
+					return f, true
+				}
+			}
+			return "", false
+		}
+		return f, true
+	}
+	isLock := func(in ssa.Instruction) bool {
+		cl, ok := in.(*ssa.Call)
+		if !ok || !re(lockRe).MatchString(calleeNameNoPath(&cl.Call)) || len(cl.Call.Args) == 0 {
+			return false
+		}
+		return re(`\.` + mtxField + `(\.|$)`).MatchString(pathOf(cl.Call.Args[0]))
+	}
+	// functions of the package (closures attributed to their root)
+	var fns []*ssa.Function
+	for _, f := range c.P.ModFuncs {
+		r := rootFn(f)
+		if r.Pkg != nil && strings.TrimPrefix(r.Pkg.Pkg.Path(), modPath+"/") == pkg {
+			fns = append(fns, f)
+		}
+	}
+	needs := map[*ssa.Function]string{} // function -> why it needs the mutex from its caller
+	// unguarded: an instruction satisfying sel is reachable from entry without passing a Lock of the mutex
+	unguarded := func(f *ssa.Function, sel func(ssa.Instruction) bool) (ssa.Instruction, bool) {
+		w := &Walker{P: c.P, Stop: isLock}
+		hit, found := w.Reach(f, f.Blocks[0], 0, sel)
+		return hit.Instr, found
+	}
+	for changed := true; changed; {
+		changed = false
+		for _, f := range fns {
+			if _, ok := needs[f]; ok || len(f.Blocks) == 0 {
+				continue
+			}
+			if in, found := unguarded(f, func(in ssa.Instruction) bool { _, ok := isAccess(in); return ok }); found {
+				fld, _ := isAccess(in)
+				needs[f] = "accesses " + typ + "." + fld + " at " + c.P.Pos(instrPos(in))
+				changed = true
+				continue
+			}
+			if in, found := unguarded(f, func(in ssa.Instruction) bool {
+				cc := callCommon(in)
+				if cc == nil {
+					return false
+				}
+				if _, isGo := in.(*ssa.Go); isGo {
+					return false
+				}
+				if cal := cc.StaticCallee(); cal != nil {
+					_, n := needs[cal]
+					return n
+				}
+				if mc, ok := cc.Value.(*ssa.MakeClosure); ok {
+					if af, ok := mc.Fn.(*ssa.Function); ok {
+						_, n := needs[af]
+						return n
+					}
+				}
+				return false
+			}); found {
+				needs[f] = "calls " + calleeNameNoPath(callCommon(in)) + " at " + c.P.Pos(instrPos(in)) + ", which needs the mutex"
+				changed = true
+			}
+			// closures defined in f and passed along: if the closure needs the mutex and f does not hold it where the closure is made
+			if _, ok := needs[f]; !ok {
+				if in, found := unguarded(f, func(in ssa.Instruction) bool {
+					mc, ok := in.(*ssa.MakeClosure)
+					if !ok {
+						return false
+					}
+					af, ok := mc.Fn.(*ssa.Function)
+					if !ok {
+						return false
+					}
+					_, n := needs[af]
+					return n
+				}); found {
+					needs[f] = "creates a closure at " + c.P.Pos(instrPos(in)) + " that needs the mutex"
+					changed = true
+				}
+			}
+		}
+	}
+	// entry points must not need the mutex
+	cg := c.P.CallGraph()
+	nEntry := 0
+	var names []string
+	for f := range needs {
+		names = append(names, fnName(f))
+	}
+	sort.Strings(names)
+	byName := map[string]*ssa.Function{}
+	for f := range needs {
+		byName[fnName(f)] = f
+	}
+	for _, n := range names {
+		f := byName[n]
+		if f.Parent() != nil {
+			// closures: goroutine bodies are entries; others are covered through their creator
+			isGoBody := false
+			for _, g := range fns {
+				allInstrs(g, false, func(_ *ssa.Function, in ssa.Instruction) {
+					if gi, ok := in.(*ssa.Go); ok {
+						if mc, ok := gi.Call.Value.(*ssa.MakeClosure); ok && mc.Fn == f {
+							isGoBody = true
+						}
+					}
+				})
+			}
+			if !isGoBody {
+				continue
+			}
+		}
+		entry := f.Parent() != nil
+		if f.Object() != nil && f.Object().Exported() {
+			entry = true
+		}
+		callers := 0
+		if node := cg.Nodes[f]; node != nil {
+			for _, e := range node.In {
+				if e.Caller.Func.Pkg != nil && strings.HasPrefix(e.Caller.Func.Pkg.Pkg.Path(), modPath) {
+					callers++
+					if _, isGo := e.Site.(*ssa.Go); isGo {
+						entry = true
+					}
+				}
+			}
+		}
+		if callers == 0 {
+			entry = true
+		}
+		if !entry {
+			continue
+		}
+		nEntry++
+		key := n + "/holds " + typ + "." + mtxField + " when touching guarded state"
+		if why, ok := exceptions[n]; ok {
+			c.OK("L2", key, f.Pos(), 1, "tabled exception: "+why)
+			continue
+		}
+		c.Bad("L2", key, f.Pos(), 1, n+" is an entry point (exported, goroutine body or uncalled) and "+needs[f]+" without holding "+typ+"."+mtxField)
+	}
+	// report the functions that do lock correctly as discharged obligations (exported methods that access guarded state under the lock)
+	nLocked := 0
+	for _, f := range fns {
+		if _, n := needs[f]; n || f.Parent() != nil || len(f.Blocks) == 0 {
+			continue
+		}
+		touches := false
+		allInstrs(f, true, func(_ *ssa.Function, in ssa.Instruction) {
+			if _, ok := isAccess(in); ok {
+				touches = true
+			}
+			if cc := callCommon(in); cc != nil {
+				if cal := cc.StaticCallee(); cal != nil {
+					if _, n := needs[cal]; n {
+						touches = true
+					}
+				}
+			}
+		})
+		if touches {
+			nLocked++
+			c.OK("L2", fnName(f)+"/holds "+typ+"."+mtxField+" when touching guarded state", f.Pos(), 1, "")
+		}
+	}
+	c.Extra["guarded_by_"+typ] = map[string]int{"functions_needing_mutex_from_caller": len(needs), "entry_points_flagged_or_excepted": nEntry, "functions_locking_correctly": nLocked}
+}
